@@ -15,7 +15,7 @@ use crate::Cfg;
 pub const FLOORS: &[&str] = &[
     "after:accepted", "after:rejected_in_lexer", "after:rejected_after_labels", "after:rejected_in_backpatch",
     "after:rejected_in_emit", "shares_labels_with_predecessor", "repeat_same_source", "with_orig", "without_orig",
-    "with_break", "histories", "after_many_labels", "extension_program:flag_on", "extension_program:flag_off",
+    "with_break", "histories", "after_many_labels", "extension_program:flag_on", "extension_program:flag_off", "several_undefined_labels", "reserved_looking_label",
 ];
 
 fn summary(o: &AsmOutcome) -> String {
@@ -55,6 +55,27 @@ fn gen_source(rng: &mut Rng, stack: bool, prev_labels: &[String]) -> (String, &'
         0 => (rng.s(&["add r0 r0 #99\n", "x\u{e9} add r0 r0 r0\n@\n", ".stringz \"open\nhalt\n", ".bogus\n", "#70000\n",
             // a stack mnemonic: a lexer error exactly when the feature is off
             "push r0\nhalt\n", "lab pop r1\n", "add r0 r0 #1\ncall sub\nsub rets\n", "RETS\n"]).to_string(), "lexer_or_parser"),
+        6 if rng.chance(1, 3) => {
+            // several different undefined labels (a diagnostic that enumerates them must enumerate them
+            // the same way every time), and names a runtime or a later version might predefine
+            let n = 2 + rng.below(5);
+            let mut t = String::from("top add r0 r0 #1\n");
+            for k in 0..n {
+                let name = match rng.below(3) {
+                    0 => format!("missing_{}", rng.below(50)),
+                    1 => rng.s(&["_start", "_main", "main", "start", "_end", "__stack", "_exit", "printf"]).to_string(),
+                    _ => format!("m{}", k),
+                };
+                t.push_str(&format!("{} {}\n", rng.s(&["br", "ld r1", "lea r2", "jsr", "st r3"]), name));
+            }
+            t.push_str("halt\n");
+            (t, "several_undefined_labels")
+        }
+        6 if rng.bool() => {
+            // reserved-looking names, defined and used in the ordinary way
+            let name = rng.s(&["_start", "_main", "main", "start", "_end", "__stack"]);
+            (format!("{} add r0 r0 #1\nbrp {}\nlea r1 {}\nhalt\n", name, name, name), "reserved_looking_label")
+        }
         7 if rng.bool() => {
             // a valid program but for the extension mnemonics in it: accepted exactly when this
             // thread's feature flag is on - whatever other threads of the process were given
@@ -214,6 +235,25 @@ fn one_case(seed: u64, i: u64) -> CaseOut {
         }
         if *kind == "repeat" {
             out.class("repeat_same_source");
+        }
+        if *kind == "several_undefined_labels" || *kind == "reserved_looking_label" {
+            out.class(*kind);
+            // ... and the same result when the same text is assembled again on a second fresh thread
+            let t = text.clone();
+            let again = std::thread::scope(|s| {
+                std::thread::Builder::new().stack_size(8 << 20).spawn_scoped(s, move || assemble_fresh(&t, stack)).unwrap().join()
+            });
+            if let Ok(again) = again {
+                if summary(&again) != fs {
+                    out.violate(
+                        "C19/differs-between-two-fresh-assemblies",
+                        i,
+                        "the same source gives two different results on two fresh threads".to_string(),
+                        J::obj(vec![("source", J::s(text)), ("first", J::s(&fs)), ("second", J::s(summary(&again))), ("stack_feature", J::B(stack))]),
+                    );
+                    return out;
+                }
+            }
         }
         if let AsmOutcome::Ok(img) = &fresh {
             out.class(if img.orig.is_some() { "with_orig" } else { "without_orig" });
